@@ -79,6 +79,7 @@ type VM struct {
 	fninfo  map[*ssa.Function]*fnInfo
 	intr    map[string]Intrinsic
 
+	afterFuncs map[*Object][]*afterFuncRec // context.AfterFunc registrations per Done channel (per path)
 	watch      *loopWatch // a loop suspected of never ending (see loopProgress)
 	co         *coro // the goroutine (coroutine) executing right now; nil: main thread / thread 2
 	epoch      int
